@@ -58,7 +58,7 @@ Proof.
   - destruct (lock s); [discriminate|]. inv_some0 H. reflexivity.
   - inv_some0 H. reflexivity.
   - destruct (is_tr (ps s)); inv_some0 H; reflexivity.
-  - destruct (inq s); [discriminate|]. inv_some0 H. reflexivity.
+  - destruct (inq s) as [|[]]; [discriminate| |]; inv_some0 H; reflexivity.
   - inv_some0 H. reflexivity.
 Qed.
 
@@ -70,7 +70,7 @@ Proof.
   - destruct (lookup (conn s) (bound s)); inv_some0 H; reflexivity.
   - destruct (inq s); [discriminate|]. inv_some0 H. reflexivity.
   - inv_some0 H. reflexivity.
-  - destruct (is_hs (ps s)); inv_some0 H; reflexivity.
+  - destruct (is_hs (ps s)); inv_some0 H; [destruct (lrs s =? nrs)%N|]; reflexivity.
   - inv_some0 H. reflexivity.
   - destruct (flush_step (w_att w + 1) f s) as [[[l' s'] r]|] eqn:Ef; [|discriminate].
     apply flush_step_workers in Ef. destruct r; inv_some0 H; assumption.
@@ -140,6 +140,7 @@ Section OneAttempt.
     match h with HFinish _ | HSetT _ | HPersist _ | HFlush _ => true | _ => false end.
   Definition after_persist (h : hpc) : bool :=
     match h with HFlush _ => true | HDone => auth_ok | _ => false end.
+  Definition at_persist (h : hpc) : bool := match h with HPersist _ => true | _ => false end.
   Definition in_transport (h : hpc) : bool :=
     match h with HPersist _ | HFlush _ => true | HDone => auth_ok | _ => false end.
   Definition fail_log (h : hpc) : list ev :=
@@ -173,7 +174,8 @@ Section OneAttempt.
     i_carry : forall n, carries h = Some n -> n = nrs;
     i_okpath : on_ok_path h = true -> auth_ok = true;
     i_failpath : on_fail_path h = true -> auth_ok = false;
-    i_rs : stored s = (if after_persist h && changed then nrs else stored0) /\ lrs s = stored s;
+    i_rs : stored s = (if (after_persist h || at_persist h) && changed then nrs else stored0) /\
+           lrs s = (if after_persist h && changed then nrs else stored0);
     i_persists : persists (log s) = if after_persist h && changed then [nrs] else [];
     i_failures : failures (log s) = fail_log h;
     i_early : wrote_hello h = false -> npc_ s = NNext /\ rest = hello :: data;
@@ -245,6 +247,17 @@ Section OneAttempt.
     - destruct auth_ok eqn:E; [split; reflexivity | exfalso; apply Hno; reflexivity].
   Qed.
 
+  Lemma inq_data s h rest x q :
+    Inv2 s h rest -> in_transport h = true -> inq s = x :: q -> exists i, x = SData i.
+  Proof.
+    intros HI Hint Eq. fields HI. rewrite Eq in Hacct.
+    assert (Hin : In x data).
+    { destruct h; cbn in Hint; try discriminate; cbn in Hacct;
+        apply cons_inj in Hacct; destruct Hacct as [_ Hacct]; rewrite Hacct;
+        rewrite in_app_iff; right; left; reflexivity. }
+    unfold data in Hin. rewrite in_map_iff in Hin. destruct Hin as (i & <- & _). eexists; reflexivity.
+  Qed.
+
   Lemma delivered_up s c x : map snd (ups (log s ++ [EUp c x])) = delivered s ++ [x].
   Proof. unfold delivered. rewrite ups_app, map_app. reflexivity. Qed.
 
@@ -309,9 +322,10 @@ Section OneAttempt.
         rewrite Htr in Hst. cbn in Hst. inv_some Hst. exists rest.
         constructor; t2 Hearly.
       + (* FGet *)
-        destruct (inq s) as [|x q] eqn:Eq; [discriminate|]. inv_some Hst. exists rest.
+        destruct (inq s) as [|x q] eqn:Eq; [discriminate|].
         assert (Hq : inq s <> []) by (rewrite Eq; discriminate).
         destruct (nt_flush_tr _ _ _ _ HI0 En Hq) as [Htr Hint].
+        destruct (inq_data _ _ _ _ _ HI0 Hint Eq) as [i ->]. cbn [sid_of] in Hst. inv_some Hst. exists rest.
         pose proof (Hctr Hint) as Hc.
         constructor; t2 Hearly.
         * rewrite dl_step, Hacct. rewrite <- !app_assoc. reflexivity.
@@ -371,7 +385,7 @@ Section OneAttempt.
     - (* HFinish *) inv_some Hst. constructor; t2 Hearly.
     - (* HSetT *)
       rewrite Hps in Hst. cbn in Hst. pose proof (Hcar _ eq_refl) as ->.
-      destruct Hrs as [Hst0 Hl]. cbn in Hst0. rewrite Hl, Hst0 in Hst.
+      destruct Hrs as [Hst0 Hl]. cbn in Hst0, Hl. rewrite Hl in Hst.
       pose proof (Hnod eq_refl) as Hd.
       assert (Hnfl : forall f, npc_ s <> NFl f).
       { intros f Hf. pose proof (Hntfl _ Hf) as C. rewrite Hps in C. discriminate. }
@@ -383,7 +397,9 @@ Section OneAttempt.
         try (destruct (npc_ s) as [| | | | | |f0|]; cbn; try reflexivity; destruct f0; reflexivity).
     - (* HPersist *)
       inv_some Hst. pose proof (Hcar _ eq_refl) as ->. pose proof (Hchg _ eq_refl) as Hc.
-      constructor; t2 Hearly; try (rewrite Hc; t); try bh; try (lg; rewrite ?Hper; t2 Hearly).
+      destruct Hrs as [Hs1 Hs2]. cbn in Hs1, Hs2. rewrite Hc in Hs1. cbn in Hs1.
+      constructor; t2 Hearly; try (rewrite Hc; t); try bh; try (lg; rewrite ?Hper; t2 Hearly);
+        try (split; [assumption | reflexivity]).
     - (* HFlush *)
       unfold flush_step in Hst. destruct f.
       + (* FAcq *)
@@ -394,7 +410,8 @@ Section OneAttempt.
       + (* FMach *)
         rewrite Hps in Hst. cbn in Hst. inv_some Hst. constructor; t2 Hearly; try solve [dn].
       + (* FGet *)
-        destruct (inq s) as [|x q] eqn:Eq; [discriminate|]. inv_some Hst.
+        destruct (inq s) as [|x q] eqn:Eq; [discriminate|].
+        destruct (inq_data _ _ _ _ _ HI0 eq_refl Eq) as [i ->]. inv_some Hst.
         pose proof (Hctr eq_refl) as Hc.
         constructor; t2 Hearly; try solve [dn];
           try (apply ups_step; assumption); try (intros _; apply len_step; assumption);
@@ -532,7 +549,7 @@ Section OneAttempt.
     - rewrite (Ha eq_refl). reflexivity.
     - reflexivity.
     - destruct (is_tr (ps s)); reflexivity.
-    - destruct (inq s); [exfalso; apply (Hg eq_refl); reflexivity | reflexivity].
+    - destruct (inq s) as [|[]]; [exfalso; apply (Hg eq_refl); reflexivity | reflexivity | reflexivity].
     - reflexivity.
   Qed.
 
@@ -565,7 +582,7 @@ Section OneAttempt.
         eapply Hnt; [reflexivity|]. intros ->. cbn in El. discriminate.
       + right; right; eapply HW; reflexivity.
       + right; right; eapply HW; reflexivity.
-      + destruct (inq s) eqn:Eq; [exfalso; eapply Hhsit; eauto | right; right; eapply HW; reflexivity].
+      + destruct (inq s) as [|[]] eqn:Eq; [exfalso; eapply Hhsit; eauto | |]; right; right; eapply HW; reflexivity.
       + right; right; eapply HW; reflexivity.
     - (* HDone *)
       destruct (npc_ s) eqn:En; cbn in Hn; try discriminate.
